@@ -120,8 +120,12 @@ def run_property(prop, tier, rule_fns, level="other", clause="", assumptions=Non
     kn = known.get(prop, {})
     violations = []
     known_hits = []
+    seen_keys = set()
     for r in results:
         for f in r.findings:
+            if f.key in seen_keys:
+                continue   # the same instance reported under a second build configuration
+            seen_keys.add(f.key)
             if f.key in kn:
                 known_hits.append(f)
             else:
